@@ -40,6 +40,7 @@ pub fn cbytes(c: &Commitment) -> Vec<u8> {
 /// Why a block is invalid relative to a state (class names used as outcome classes).
 #[derive(Clone, Debug, PartialEq, Eq)]
 pub enum Bad {
+	Corrupted,
 	UnknownInput,
 	DuplicateOutput,
 	Immature,
@@ -153,6 +154,28 @@ pub struct UB {
 	pub block: Block,
 	/// index of the parent in `Tree::blocks`, None = genesis
 	pub parent: Option<usize>,
+	/// Some(stage) when the block was deliberately corrupted (fails at that validation stage)
+	pub bad: Option<String>,
+	/// for corrupted blocks: does the header alone satisfy the header rules?
+	pub header_valid: bool,
+	/// for corrupted blocks with an unchanged header hash: the block it impersonates
+	pub of: Option<usize>,
+	/// for corrupted blocks: the valid block they were derived from
+	pub variant_of: Option<usize>,
+}
+
+impl UB {
+	pub fn new(name: &str, block: Block, parent: Option<usize>) -> UB {
+		UB {
+			name: name.into(),
+			block,
+			parent,
+			bad: None,
+			header_valid: true,
+			of: None,
+			variant_of: None,
+		}
+	}
 }
 
 /// Fork tree over genesis.
@@ -168,7 +191,10 @@ impl Tree {
 		self.blocks[i].block.hash()
 	}
 	pub fn index_of(&self, h: &Hash) -> Option<usize> {
-		self.blocks.iter().position(|b| b.block.hash() == *h)
+		self.blocks
+			.iter()
+			.position(|b| b.bad.is_none() && b.block.hash() == *h)
+			.or_else(|| self.blocks.iter().position(|b| b.block.hash() == *h))
 	}
 	/// path genesis(excluded) -> i
 	pub fn path(&self, i: usize) -> Vec<usize> {
@@ -187,6 +213,9 @@ impl Tree {
 		let mut s = State::genesis(&self.gen);
 		if let Some(t) = tip {
 			for i in self.path(t) {
+				if self.blocks[i].bad.is_some() {
+					return Err((i, Bad::Corrupted));
+				}
 				s.check(&self.blocks[i].block, self.nrd_enabled)
 					.map_err(|e| (i, e))?;
 				s.apply_unchecked(&self.blocks[i].block);
